@@ -1,11 +1,14 @@
 import Driver.Util
 import Driver.Filter
+import Driver.Syntax
 namespace Driver
 
 def dispatch (line : String) : String :=
   match line.trimAscii.toString.splitOn " " with
   | "xxh" :: rest => (handleXxh rest).getD "bad-op"
   | "pout" :: rest => (handlePout rest).getD "bad-op"
+  | "parse" :: rest => (handleParse rest).getD "bad-op"
+  | "rt" :: rest => (handleRt rest).getD "bad-op"
   | "part" :: rest => (handlePart rest).getD "bad-op"
   | "bin" :: rest => (handleBin rest).getD "bad-op"
   | _ => "bad-op"
